@@ -815,6 +815,29 @@ def r42_writeback_gated(facts):
                 else:
                     c.bad(inst, where, "the parameter is overwritten whether or not it had a gradient: a frozen parameter (no gradient) is replaced by a fresh tracked array "
                                        "and starts training from the next iteration")
+        # the selection is by PRESENCE of a gradient: update itself never fills a parameter's gradient slot (a default gradient of zeros makes
+        # every parameter look as if the pass had reached it)
+        fillers, unread_ = [], []
+        for nb in bodies:
+            for n in walk(facts.root(nb)):
+                uses_mut = lambda e: any(y.get("k") == "Call" and resolved(y) == ARRAY + "::gradient_mut" for y in walk(e))
+                none_lit = lambda e: isinstance(strip(e), dict) and strip(e).get("k") == "Adt" and strip(e).get("variant") == "None"
+                if n.get("k") == "Call" and n.get("args") and uses_mut(n["args"][0]) and resolved(n) != ARRAY + "::gradient_mut":
+                    tl_ = (callee(n) or "").rsplit("::", 1)[-1]
+                    if tl_ in ("get_or_insert_with", "get_or_insert", "insert", "get_or_insert_default") or (tl_ == "replace" and len(n["args"]) == 2 and not none_lit(n["args"][1])):
+                        fillers.append((nb, n))
+                    elif tl_ not in ("take", "is_some", "is_none", "as_ref", "as_deref", "clone", "deref", "deref_mut", "replace", "as_mut", "borrow", "map", "unwrap", "expect", "is_some_and"):
+                        unread_.append((nb, n))
+                if n.get("k") == "Assign" and uses_mut(n["l"]) and not none_lit(n["r"]):
+                    fillers.append((nb, n))
+        if unread_ and not fillers:
+            c.unk("gradient-fill:%s" % u["def"], loc(unread_[0][0], unread_[0][1]), "update uses `gradient_mut()` in a form this clause does not read (`%s`)" % show(unread_[0][1])[:60])
+        elif fillers:
+            nb_, n_ = fillers[0]
+            c.bad("gradient-fill:%s" % u["def"], loc(nb_, n_), "update fills a parameter's gradient slot through `gradient_mut()`: a slot filled here makes a parameter without a "
+                  "gradient - frozen, or not reached by this iteration's pass - pass the presence test, so it is rebuilt as a fresh tracked array")
+        else:
+            c.ok("gradient-fill:%s" % u["def"], loc(u, facts.root(u)), "update never fills a gradient slot (gradients are only read, taken or emptied)", nontrivial=False)
         if n_writes == 0:
             c.unk("writeback:%s" % u["def"], loc(u, facts.root(u)), "no `*parameter = ..` store found in update or the functions it calls (parameters replaced in another way)")
         # the values a parameter is rebuilt from are CONSUMED from the flat buffer (drain / split_off / a shared iterator / a running offset):
